@@ -712,13 +712,23 @@ func c10TaskKind(a *c10Attempt, k int) string {
 	return "?"
 }
 
+// c10Floors: generator-health floors.  The quick tier has only ~50 cases, so its
+// floors sit ~3 sigma below the rates the generator aims at (refresh-kept ~27 %,
+// refresh-new ~40 %, revert ~15 %, install ~15 %, current-not-last ~30 %).
+func c10Floors() map[string]float64 {
+	if verifkit.Thorough() {
+		return map[string]float64{"refresh-kept": 0.15, "refresh-new": 0.15, "revert": 0.08, "install": 0.05, "current-not-last": 0.15, "refresh-kept-with-gc": 0.03}
+	}
+	return map[string]float64{"refresh-kept": 0.08, "refresh-new": 0.12, "revert": 0.03, "install": 0.03, "current-not-last": 0.08}
+}
+
 func TestVerifC10(t *testing.T) {
 	worldRun(t, func(c *check.C) {
 		verifkit.Check(t, verifkit.Spec[c10Case]{
 			ID: "C10", Engine: "faults",
 			Gen:             c10Gen,
 			Run:             func(cs c10Case) (verifkit.Outcome, error) { return c10Run(c, cs) },
-			Floors:          map[string]float64{"refresh-kept": 0.15, "refresh-new": 0.15, "revert": 0.10, "install": 0.05, "current-not-last": 0.15},
+			Floors:          c10Floors(),
 			NonTrivialFloor: 0.9,
 		})
 	})
